@@ -8,9 +8,9 @@ Model of `internal/rules/composite_subject_creator.go`, of the six authenticator
 * `Err`, `Err.is` — error values as `errorchain` builds them and `errors.Is` against a heimdall sentinel.
 * `Req`, `Strategy.get`, `extract` — where authentication data is looked for in a request and which error the
   extractors report (string level: header scheme prefix, trimming, first query / cookie value, body parameter shapes).
-* `Shape`, `BasicSite` / `JwtSite` / `IntroSite` / `GenSite` — every error value the authenticators construct, in the
-  order of the source files; `Gen/AuthnSites.lean` is regenerated from the source on every run and compared with
-  these tables.
+* `Shape`, `BasicSite` / `JwtSite` / `IntroSite` / `GenSite` — the error values the authenticators construct (the
+  vocabulary of the verdicts); `Gen/AuthnSites.lean` is regenerated from the source on every run: what `Execute`
+  constructs is compared exactly, what the rest of each file constructs must be free of argument errors.
 * `World` — what lies outside heimdall: which strings are JWS compact serialisations, what the verification of a
   parsed token / the introspection endpoint / the identity endpoint says about a credential, what a Basic value
   decodes to. A finite table with "unknown ⇒ rejected" defaults, so that every hypothesis about it is decidable.
@@ -222,13 +222,41 @@ abbrev Shape := List Elem
 def Shape.build (s : Shape) (cause : Err) : Err :=
   .chain (s.map fun | .k k => .kind k | .dyn => cause)
 
-/-- what the extractor reports about one source file -/
+/-- no argument error is written into the expression (what a run-time cause contributes is a separate question) -/
+def Shape.argFree (s : Shape) : Bool := !s.contains (.k .argument)
+
+/-- What the extractor reports about one source file: the error chain constructor expressions, in source order,
+of the *entry method* (`Execute` of an authenticator, `GetAuthData` of an extractor — where credentials are looked
+for and missing ones are reported) and of the rest of the file (helpers that run after a credential was found,
+constructors). -/
 structure FileFacts where
-  /-- the error chain constructor expressions in source order -/
-  sites : List Shape
-  /-- `CausedBy` calls that are not part of such an expression -/
-  looseCausedBy : Nat
+  entry : List Shape
+  others : List Shape
+  /-- what is handed to `CausedBy` calls that are not part of such an expression -/
+  loose : List Elem
 deriving DecidableEq, Repr
+
+/-- What the property needs of an authenticator's source file: its `Execute` constructs exactly the expected error
+values in the expected order, and *whatever* the rest of the file constructs — any number of expressions in any
+order, so unrelated edits of the verification helpers do not disturb the tie — writes no argument error. -/
+def FileFacts.authenticatorOk (f : FileFacts) (entry : List Shape) : Bool :=
+  f.entry == entry && f.others.all Shape.argFree && f.loose.isEmpty
+
+/-- What the property needs of an extractor's source file: every error it constructs is exactly the argument error
+(any number of them), and there is at least one. -/
+def FileFacts.extractorOk (f : FileFacts) : Bool :=
+  !f.entry.isEmpty && f.entry.all (· == [.k .argument]) && f.others.isEmpty && f.loose.isEmpty
+
+/-- What the property needs of the composite extractor's source file: the error it reports when no strategy yields a
+value consists of nothing but the errors collected from the strategies (`dyn`) and argument errors — it never masks
+them with another sentinel; besides that only guards that fail closed with a configuration / internal (or argument)
+error and hand on no run-time error are admitted (e.g. for an empty list of strategies). -/
+def FileFacts.compositeExtractorOk (f : FileFacts) : Bool :=
+  let collected (e : Elem) : Bool := e == .dyn || e == .k .argument
+  let guard (e : Elem) : Bool := e == .k .argument || e == .k .configuration || e == .k .internal
+  f.entry.any (fun s => s.contains .dyn) &&
+  f.entry.all (fun s => !s.isEmpty && (if s.contains .dyn then s.all collected else s.all guard)) &&
+  f.others.isEmpty && f.loose.all collected
 
 /-- `basic_auth_authenticator.go` -/
 inductive BasicSite where
@@ -243,7 +271,7 @@ def BasicSite.shape : BasicSite → Shape
   | .malformed => [.k .authentication]
   | .invalid => [.k .authentication]
 
-/-- `jwt_authenticator.go`, in source order -/
+/-- `jwt_authenticator.go` (the places where a request can fail) -/
 inductive JwtSite where
   | issuersRequired | noToken | parse | subject | metadataFailed | noJwksUri | claimsUnreadable | noKeyVerifies
   | keyNotFound | keyInvalid | jwksTimeout | jwksUnreachable | template | requestFailed | jwksStatus | jwksUnparsable
@@ -283,7 +311,8 @@ def JwtSite.verifies : JwtSite → Bool
   | .issuersRequired | .noToken | .parse => false
   | _ => true
 
-/-- `oauth2_introspection_authenticator.go`, in source order -/
+/-- `oauth2_introspection_authenticator.go`; `assertion` stands for the validation of a fresh and of a cached
+introspection response alike -/
 inductive IntroSite where
   | issuersRequired | noToken | subject | metadataFailed | noEndpoint | assertion | template | requestFailed
   | timeout | unreachable | status | unmarshal
@@ -311,7 +340,7 @@ def IntroSite.verifies : IntroSite → Bool
   | .issuersRequired | .noToken => false
   | _ => true
 
-/-- `generic_authenticator.go`, in source order -/
+/-- `generic_authenticator.go` -/
 inductive GenSite where
   | noData | subject | lifespan | sessionAssert | timeout | unreachable | payloadRender | template | requestFailed
   | status | read
@@ -341,21 +370,13 @@ def GenSite.verifies : GenSite → Bool
 /-- `unauthorized_authenticator.go`: "denied by authenticator" -/
 def unauthorizedShape : Shape := [.k .authentication]
 
-/-- the source files as the model knows them (compared with `Gen/AuthnSites.lean` on every run) -/
-def Facts.anonymous : FileFacts := ⟨[], 0⟩
-def Facts.unauthorized : FileFacts := ⟨[unauthorizedShape], 0⟩
-def Facts.basic : FileFacts := ⟨BasicSite.all.map (·.shape), 0⟩
-def Facts.jwt : FileFacts := ⟨JwtSite.all.map (·.shape), 0⟩
-def Facts.introspection : FileFacts := ⟨IntroSite.all.map (·.shape), 0⟩
-def Facts.generic : FileFacts := ⟨GenSite.all.map (·.shape), 0⟩
-/-- every error of the four extractors is `argErr` -/
-def Facts.headerExtractor : FileFacts := ⟨[[.k .argument], [.k .argument]], 0⟩
-def Facts.queryExtractor : FileFacts := ⟨[[.k .argument]], 0⟩
-def Facts.cookieExtractor : FileFacts := ⟨[[.k .argument]], 0⟩
-def Facts.bodyExtractor : FileFacts := ⟨List.replicate 6 [.k .argument], 0⟩
-/-- `errorchain.New(errors[0])` followed by one `CausedBy(errors[i])` in a loop: exactly the collected errors -/
-def Facts.compositeExtractor : FileFacts := ⟨[[.dyn]], 1⟩
-
+/-- the error values `Execute` of each authenticator constructs itself, in source order (compared with
+`Gen/AuthnSites.lean` on every run) -/
+def Facts.basicEntry : List Shape := BasicSite.all.map (·.shape)
+def Facts.jwtEntry : List Shape := [JwtSite.noToken.shape, JwtSite.parse.shape, JwtSite.subject.shape]
+def Facts.introspectionEntry : List Shape := [IntroSite.noToken.shape, IntroSite.subject.shape]
+def Facts.genericEntry : List Shape := [GenSite.noData.shape, GenSite.subject.shape]
+def Facts.unauthorizedEntry : List Shape := [unauthorizedShape]
 /-- the condition under which `compositeSubjectCreator.Execute` goes on to the next authenticator -/
 structure Guard where
   /-- `errors.Is(err, heimdall.ErrArgument)` is one of the alternatives -/
@@ -379,7 +400,7 @@ inductive Verdict (σ : Type) where
 deriving Repr, Inhabited
 
 /-- A finite description of everything outside heimdall that the authenticators consult. Keys of the verdict tables:
-(authenticator id, credential). Anything not listed is garbage: not decodable, not a JWT, rejected. -/
+(authenticator key, credential). Anything not listed is garbage: not decodable, not a JWT, rejected. -/
 structure World where
   /-- Basic credentials: the base64 text ↦ the decoded text split at `:` -/
   basic : List (String × List String) := []
@@ -440,6 +461,9 @@ structure Authn where
   allowFallback : Bool := false
   /-- `allow_fallback_on_error` given in the rule's step configuration, if any (`WithConfig`) -/
   override : Option Bool := none
+  /-- the name under which the world knows this authenticator *as configured in this step*: the mechanism id,
+  extended if the rule overrides its assertions (the check of a credential then depends on the step) -/
+  key : String := id
 deriving DecidableEq, Repr, Inhabited
 
 /-- `IsFallbackOnErrorAllowed()` -/
@@ -491,16 +515,16 @@ def Authn.execute (w : World) (a : Authn) (r : Req) : Except Err String :=
     match extract ss r with
     | .error e => .error (JwtSite.noToken.shape.build e)
     | .ok tok =>
-      if w.parses.contains tok then (w.jwtVerdict a.id tok).outcome JwtSite.shape
+      if w.parses.contains tok then (w.jwtVerdict a.key tok).outcome JwtSite.shape
       else .error (JwtSite.parse.shape.build .foreign)
   | .introspection ss =>
     match extract ss r with
     | .error e => .error (IntroSite.noToken.shape.build e)
-    | .ok tok => (w.introVerdict a.id tok).outcome IntroSite.shape
+    | .ok tok => (w.introVerdict a.key tok).outcome IntroSite.shape
   | .generic ss =>
     match extract ss r with
     | .error e => .error (GenSite.noData.shape.build e)
-    | .ok tok => (w.genVerdict a.id tok).outcome GenSite.shape
+    | .ok tok => (w.genVerdict a.key tok).outcome GenSite.shape
 
 /-! ## the composite -/
 
